@@ -341,64 +341,73 @@ end SkVerif.C16
 
 namespace SkVerif.C16
 
-/-! ## Feature unions and the input container (known finding) -/
+/-! ## Feature unions and the input container (repaired by /repo bec276b) -/
 
-/- FULL STATEMENT (container invariance of a feature union; NOT provable for the code as it is):
-     ∀ members, unionAccepts members true = unionAccepts members false
-   `Tabularizer.transform` returns a DataFrame for nested input and an ndarray for a 3-D array, and
-   `FeatureUnion._hstack` concatenates with `pd.concat` as soon as one member returned a DataFrame. -/
-
-/-- a union whose members all return DataFrames treats both containers alike -/
-theorem union_container_invariant_partial (members : List MemberOut) (h : ∀ m ∈ members, m = .alwaysFrame) :
+/-- Container invariance of a feature union, full strength: `FeatureUnion._hstack` now turns every member
+output into a DataFrame before concatenating, so a union accepts its members' outputs whatever they
+are, for both containers. -/
+theorem union_container_invariant (members : List MemberOut) :
     unionAccepts members true = unionAccepts members false := by
   unfold unionAccepts
-  congr 1
-  apply List.map_congr_left
-  intro m hm; rw [h m hm]; rfl
+  rw [Lem.unionHstack_ok, Lem.unionHstack_ok]
 
-example : ∀ m ∈ [MemberOut.alwaysFrame, .alwaysFrame], m = .alwaysFrame := by decide
+/-- … in fact stacking never rejects -/
+theorem union_accepts_always (members : List MemberOut) (asArr : Bool) : unionAccepts members asArr = .ok () :=
+  Lem.unionHstack_ok _
 
-/-- NEGATION at a witness: a row-transformer next to a Tabularizer accepts the nested frame and
-rejects the 3-D array of the same data -/
-theorem union_container_witness :
-    unionAccepts [.alwaysFrame, .followsInput] false = .ok () ∧
-    unionAccepts [.alwaysFrame, .followsInput] true = .error .type := by
+example : unionAccepts [.alwaysFrame, .followsInput] true = .ok () := rfl
+
+/-- About the ORIGINAL code (before bec276b, kept as the record of the finding): a row transformer next to
+a Tabularizer accepted the nested frame and rejected the 3-D array of the same data -/
+theorem original_union_container_witness :
+    unionAcceptsOriginal [.alwaysFrame, .followsInput] false = .ok () ∧
+    unionAcceptsOriginal [.alwaysFrame, .followsInput] true = .error .type := by
   constructor <;> rfl
 
-end SkVerif.C16
+/-! ## Feature unions stack member outputs by position (repaired by /repo bec276b) -/
 
-namespace SkVerif.C16
+/-- Instance independence of a feature union of row-wise members, full strength: whatever index labels X
+carries, the union is the row-by-row pairing of the member outputs (`_hstack` re-labels every member
+output 0..n-1 before `pd.concat`, which matches rows by label). -/
+theorem union_rowwise {α β : Type} (fa fb : α → β) (labels : List Int) (X : List α)
+    (hl : labels.length = X.length) :
+    unionFreshKept fa fb labels X = .ok (X.map (fun x => (some (fa x), some (fb x)))) := by
+  unfold unionFreshKept resetIndex freshLabels
+  rw [Lem.freshFrom_map_snd, Lem.zip_map_snd labels (X.map fb) (by rw [List.length_map]; exact hl)]
+  unfold concat2
+  simp only [Lem.freshFrom_labels_map, beq_self_eq_true, if_true]
+  rw [Lem.zipWith_freshFrom]
 
-/-! ## Feature unions match member outputs by index label (known finding) -/
+example : unionFreshKept (fun x : Nat => x) (fun x => x + 1) [1, 0] [20, 10] = .ok [(some 20, some 21), (some 10, some 11)] := rfl
 
-/- FULL STATEMENT (instance independence of a feature union of row-wise members; NOT provable for the
-   code as it is):   ∀ fa fb labels X, labels.length = X.length →
-       unionFreshKept fa fb labels X = .ok (X.map (fun x => (some (fa x), some (fb x))))
-   `FeatureUnion._hstack` glues the member outputs with `pd.concat(axis=1)`, which matches rows by index
-   LABEL; a member that builds a fresh frame (row transformers, RandomIntervalFeatureExtractor, …) labels
-   its rows 0..n-1, a member that keeps the caller's index (Tabularizer) does not. -/
+/-- … hence it commutes with every selection of instances, labels kept or not -/
+theorem union_select_equivariant {α β : Type} (fa fb : α → β) (labels labels' : List Int) (X : List α) (idx : List Nat)
+    (hl : labels.length = X.length) (hl' : labels'.length = (select idx X).length) :
+    unionFreshKept fa fb labels' (select idx X)
+      = (unionFreshKept fa fb labels X).map (select idx) := by
+  rw [union_rowwise fa fb labels X hl, union_rowwise fa fb labels' _ hl']
+  simp only [Except.map]
+  rw [perm_equivariant]
 
-/-- with the default RangeIndex on X the union is the row-by-row pairing of the member outputs -/
-theorem union_default_labels_rowwise_partial {α β : Type} (fa fb : α → β) (X : List α) :
-    unionFreshKept fa fb ((freshLabels X).map (·.1)) X = .ok (X.map (fun x => (some (fa x), some (fb x)))) := by
-  unfold unionFreshKept concat2 freshLabels
+/-- About the ORIGINAL code (before bec276b): with the default RangeIndex the union was already the
+row-by-row pairing … -/
+theorem original_union_default_labels_rowwise {α β : Type} (fa fb : α → β) (X : List α) :
+    unionFreshKeptOriginal fa fb ((freshLabels X).map (·.1)) X = .ok (X.map (fun x => (some (fa x), some (fb x)))) := by
+  unfold unionFreshKeptOriginal concat2 freshLabels
   rw [Lem.zip_freshFrom fb 0 X]
   simp only [Lem.freshFrom_labels_map, beq_self_eq_true, if_true]
   rw [Lem.zipWith_freshFrom]
 
-example : (freshLabels ["a", "b", "c"]).map (·.1) = [0, 1, 2] := by decide
-
-/-- NEGATION at a witness: the same two instances handed over in reverse order with their labels kept
-(`X.iloc[[1, 0]]`) — every output row pairs the first member's value of one instance with the second
-member's value of the OTHER instance -/
-theorem union_label_misalignment_witness :
-    unionFreshKept (fun x : Nat => x) (fun x => x) [1, 0] [20, 10]
+/-- … but the same two instances handed over in reverse order with their labels kept (`X.iloc[[1, 0]]`)
+paired the first member's value of one instance with the second member's value of the OTHER one, -/
+theorem original_union_label_misalignment_witness :
+    unionFreshKeptOriginal (fun x : Nat => x) (fun x => x) [1, 0] [20, 10]
       = .ok [(some 20, some 10), (some 10, some 20)] := by
   rfl
 
-/-- … and a single instance that does not carry label 0 comes back as two half-empty rows -/
-theorem union_single_instance_two_rows_witness :
-    unionFreshKept (fun x : Nat => x) (fun x => x) [2] [30] = .ok [(some 30, none), (none, some 30)] := by
+/-- … and a single instance that does not carry label 0 came back as two half-empty rows -/
+theorem original_union_single_instance_two_rows_witness :
+    unionFreshKeptOriginal (fun x : Nat => x) (fun x => x) [2] [30] = .ok [(some 30, none), (none, some 30)] := by
   rfl
 
 end SkVerif.C16
